@@ -55,6 +55,7 @@ func TestReplay(t *testing.T) {
 			continue
 		}
 		beginCase(prop, rec.Sub, func() any { return rec.Case })
+		defer endCase() // also when rapid abandons the case half-way (fuzzing: input used up)
 		msg, failed, err := fn(rec.Case)
 		endCase()
 		switch {
@@ -126,6 +127,7 @@ func (pp parserProp) body(fixedKind string, st *propStats) func(t *rapid.T) {
 			pp.setup(x)
 		}
 		beginCase(pp.prop, kind, func() any { return x.Case() })
+		defer endCase() // also when rapid abandons the case half-way (fuzzing: input used up)
 		genParserHistory(t, x, pp.opts(kind))
 		if pp.after != nil && !x.dead {
 			pp.after(x)
